@@ -188,6 +188,11 @@ pub fn load(text: &str, code_base: u64) -> Result<Prog, LoadErr> {
             }
             continue;
         }
+        // a line with unbalanced brackets is not acceptable to any assembler (e.g. a symbol that was
+        // broken across two lines)
+        if t.matches('[').count() != t.matches(']').count() || t.matches('(').count() != t.matches(')').count() {
+            return Err(LoadErr::Text(Viol::new(Class::Text, format!("line {line}: `{t}` has unbalanced brackets"))));
+        }
         // instruction
         let (mn, rest) = match t.split_once(char::is_whitespace) {
             Some((m, r)) => (m, r.trim()),
@@ -393,6 +398,9 @@ pub fn load(text: &str, code_base: u64) -> Result<Prog, LoadErr> {
                 };
                 fixups.push((ins.len(), ops[0].to_string(), line));
                 Ins::Jcc(cc, usize::MAX)
+            }
+            m if !m.chars().all(|c| c.is_ascii_alphanumeric() || c == '.' || c == '_') => {
+                return Err(LoadErr::Text(Viol::new(Class::Text, format!("line {line}: `{t}` is neither an instruction nor a label nor a directive"))));
             }
             _ => return Err(bad("unknown mnemonic")),
         };
